@@ -20,11 +20,11 @@ func init() {
 		Assumptions: []string{"go/token.Token.Precedence is the oracle for Go's five binary precedence levels"},
 		Trusted:     []string{"go/token precedence table"},
 		Quick: []ruleDef{
-			{"TAB-PREC", 165, ruleTabPrec},
-			{"TAB-ASSOC", 30, ruleTabAssoc},
-			{"TAB-UNARY", 4, ruleTabUnary},
-			{"TAB-MUNCH", 53, ruleTabMunch},
-			{"TAB-MASK", 4, ruleTabMask},
+			{"TAB-PREC", 103, ruleTabPrec},
+			{"TAB-ASSOC", 19, ruleTabAssoc},
+			{"TAB-UNARY", 3, ruleTabUnary},
+			{"TAB-MUNCH", 33, ruleTabMunch},
+			{"TAB-MASK", 3, ruleTabMask},
 		},
 	})
 }
